@@ -227,6 +227,7 @@ def strategy(tier):
         c["hints"] = [draw(st.booleans()), draw(st.booleans())]       # give the true symmetric / hermitian flag
         c["tol"] = draw(st.sampled_from([None, None, None, 1e-5, 1e-9]))
         c["ctor"] = draw(st.booleans())
+        c["via_linsolve"] = draw(st.sampled_from([False, False, False, True]))
         c["payload_seed"] = draw(SEED)
         c["ops"] = draw(st.lists(op, min_size=2, max_size=24 if big else 14))
         return c
@@ -448,6 +449,20 @@ def check_case(case):
 
     def make_wrapper(A, ctor):
         cs = CountingSolver(make_inner())
+        if case.get("via_linsolve") and wtol is None and inner != "cg":
+            # the wrapper LinSolve builds around a user-supplied solver (flags as LinSolve derives them from its own
+            # hermitian= / symmetric= options); one response creates it, update() then empties its database again
+            import pymoto as pym
+            lkw = {k: v for k, v in kw.items() if k in ("symmetric", "hermitian")}
+            mod = pym.LinSolve([pym.Signal("A", A), pym.Signal("b", np.ones(A.shape[0]))], solver=cs, **lkw)
+            mod.response()
+            w = mod.solver
+            if not isinstance(w, S_.LDAWrapper):
+                raise TypeError(f"LinSolve.solver is a {type(w).__name__}, not an LDAWrapper")
+            w.update(A)
+            cs.calls = 0
+            labels.append("wrapper_from_linsolve")
+            return w, cs
         if ctor:
             w = S_.LDAWrapper(cs, A=A, **kw)
         else:
